@@ -253,6 +253,7 @@ const ASSUME: &[&str] = &[
 
 fn c03_positions(quick: bool) -> Vec<Pos> {
     let mut v = adversarial_roots();
+    v.extend(many_move_positions());
     v.extend(perft_roots().into_iter().map(|x| x.1).filter(|p| p.piece_count() <= 12));
     let fams = [f3(), fcastle(false), fep(false), fpromo(), fmate()];
     let (stride, step) = if quick { (29, 23) } else { (7, 11) };
@@ -588,6 +589,55 @@ pub fn run_c04(ctx: &Ctx) -> i32 {
             ctx.violation("stopped-search-reports-nothing", format!("{} | stop at node {}", p.fen(), k), json!({"fen": p.fen(), "config": cfg.json()}));
         }
     });
+    // (d) several busy workers, stop inside a deep iteration, shipped poll interval: every
+    // worker has to notice the stop by itself within its next 10 000 nodes. The iteration
+    // sizes are measured first; the stop lands 10% into the last measured iteration and the
+    // bound is workers x 10 000 plus a quarter of that iteration (free-running threads).
+    {
+        let mut deep_roots = vec![Pos::startpos()];
+        if !quick {
+            deep_roots.push(Pos::from_fen("r3k2r/p1ppqpb1/bn2pnp1/3PN3/1p2P3/2N2Q1p/PPPBBPPP/R3K2R w KQkq - 0 1").unwrap());
+        }
+        for p in &deep_roots {
+            for workers in if quick { vec![3usize] } else { vec![3usize, 4] } {
+                // measure cumulative node counts per iteration
+                let mut depth = 4;
+                let (mut before, mut size) = (0usize, 0usize);
+                while depth <= 8 {
+                    let cfg = Cfg { seed: 9, depth: Some(depth), workers: Some(workers), plan: Some((0, 0, 0)) };
+                    let run = run_search(p, &cfg, Some(small_artifact(9, (16, 4096))));
+                    let cum: Vec<usize> = run.events.iter().filter_map(|e| if let Ev::Progress { nodes, .. } = e { Some(*nodes) } else { None }).collect();
+                    if cum.len() >= 2 {
+                        before = cum[cum.len() - 2];
+                        size = cum[cum.len() - 1] - before;
+                    }
+                    if size >= 400_000 {
+                        break;
+                    }
+                    depth += 1;
+                }
+                if size < 400_000 {
+                    ctx.note(format!("deep-stop case skipped for {}: no iteration with 4*10^5 nodes up to depth 8", p.fen()));
+                    continue;
+                }
+                let k = before + size / 10;
+                let bound = k + workers * POLL + size / 4;
+                let cfg = Cfg { seed: 9, depth: None, workers: Some(workers), plan: Some((k, 0, k + 4 * size + 2_000_000)) };
+                let run = run_search(p, &cfg, Some(small_artifact(9, (16, 4096))));
+                ctx.add("deep_stop_runs", 1);
+                if !check_run(ctx, "deep-stop-", p, &cfg, &run, true, &[]) {
+                    continue;
+                }
+                if run.overrun || run.nodes > bound {
+                    ctx.violation(
+                        "stop-not-noticed-by-every-worker",
+                        format!("{} | workers {} stop at node {}", p.fen(), workers, k),
+                        json!({"fen": p.fen(), "config": cfg.json(), "iteration_size": size, "stop_at_node": k, "nodes_entered": run.nodes, "bound": bound, "explanation": "after the stop every worker must unwind within its next 10000 nodes; here the search went on for a large part of the iteration"}),
+                    );
+                }
+            }
+        }
+    }
     ctx.sample(json!({"position": menu[0].fen(), "stop_instants": "every node index 0..=N with poll interval 1, depth limits 1,2,3,none, workers 1,2", "checked": "returns, no panic, every reported line legal; with one worker at most one more node is entered after the stop"}));
     ctx.sample(json!({"position": roots[menu.len() + 2].fen(), "stop_at_node": 10000, "poll": "shipped (10000)", "checked": "returns within the step bound"}));
     let schedules = loom_part(ctx, crate::loomrun::jobs_c04(quick));
@@ -598,7 +648,7 @@ pub fn run_c04(ctx: &Ctx) -> i32 {
         ctx.get("searches") + ctx.get("stop_instant_runs") + ctx.get("shipped_interval_runs") + schedules,
         ctx.get("searches") + ctx.get("stop_instant_runs") + ctx.get("shipped_interval_runs") + schedules,
         exhaustive,
-        &format!("{}{}", "terminal roots: every checkmate and stalemate of the complete families F3 and Fmate searched at depth 1 and 3, the returned artifact then seeds a second search; stop instants: for each (position, depth limit in {1,2,3,none}, workers in {1,2}) of a menu every node index k in 0..=N at which the stop flag is raised, with the flag polled at every node; shipped poll interval: stop raised at the boundaries of the poll windows on unlimited-depth searches incl. the 3-man positions whose search tree is finite, judged by a step bound (nodes entered after the stop); protocol: the real Searcher::analyze (caller, control and search thread over the channel model) with six caller scripts x {tiny, stalemate, mate-in-1} roots x depth {1,2,none} - loom reports deadlocks and panics", LOOM_RULE),
+        &format!("{}{}", "terminal roots: every checkmate and stalemate of the complete families F3 and Fmate searched at depth 1 and 3, the returned artifact then seeds a second search; stop instants: for each (position, depth limit in {1,2,3,none}, workers in {1,2}) of a menu every node index k in 0..=N at which the stop flag is raised, with the flag polled at every node; shipped poll interval: stop raised at the boundaries of the poll windows on unlimited-depth searches incl. the 3-man positions whose search tree is finite, judged by a step bound (nodes entered after the stop); three / four busy workers stopped 10% into an iteration of >= 4*10^5 nodes (every worker must notice the stop itself); protocol: the real Searcher::analyze (caller, control and search thread over the channel model) with six caller scripts x {tiny, stalemate, mate-in-1} roots x depth {1,2,none} - loom reports deadlocks and panics", LOOM_RULE),
         ASSUME,
     )
 }
@@ -839,6 +889,31 @@ pub fn run_c17(ctx: &Ctx) -> i32 {
                     // fresh memory, or - as in a real game - because it was the root of an
                     // earlier search on the same memory (then the table knows it too)
                     let mut artifact = small_artifact(seed, (4, 256));
+                    if si == 0 && d == n2 as usize {
+                        // a game in which the root itself was searched earlier too (a repeated
+                        // position, a take-back, `stop` then `go`): root and successor recorded
+                        let pre = Cfg { seed: seed + 5, depth: Some(1), workers: Some(1), plan: None };
+                        let r0 = run_search(p, &pre, Some(small_artifact(seed, (4, 256))));
+                        l.inc("searches");
+                        if let Some(mut a) = r0.artifact {
+                            a.verif_record_history(&to_state(rec_pos));
+                            let cfg = Cfg { seed, depth: Some(d + 1), workers: Some(1), plan: None };
+                            let run = run_search(p, &cfg, Some(a));
+                            l.inc("searches");
+                            l.inc("histories_with_root_searched_before");
+                            if check_run(ctx, "", p, &cfg, &run, true, &[format!("{} depth 1", p.fen()), format!("recorded: {}", rec_pos.fen())]) {
+                                let (line, eval) = run.last_best().unwrap();
+                                let detail = json!({"fen": p.fen(), "recorded": rec_pos.fen(), "recorded_move": rec_mv.lan(), "config": cfg.json(), "evaluation": eval, "line": lan_line(line), "history": [format!("{} depth 1", p.fen()), format!("recorded: {}", rec_pos.fen())]});
+                                if eval < i32::from(Evaluation::POS_INF) {
+                                    ctx.violation("repetition-avoiding-mate-missed", format!("{} | root searched before, recorded {} | {}", p.fen(), rec_pos.epd(), cfg.json()), detail);
+                                    return;
+                                } else if mv_of(&line[0]) == *rec_mv {
+                                    ctx.violation("repeating-move-chosen", format!("{} | root searched before, recorded {} | {}", p.fen(), rec_pos.epd(), cfg.json()), detail);
+                                    return;
+                                }
+                            }
+                        }
+                    }
                     if si == 0 && rec_pos.has_legal_move() {
                         let pre = Cfg { seed: seed + 11, depth: Some(d.max(2)), workers: Some(1), plan: None };
                         let r0 = run_search(rec_pos, &pre, Some(artifact));
@@ -911,8 +986,32 @@ pub fn run_c17(ctx: &Ctx) -> i32 {
 
 // ------------------------------------------------------------------ C19
 
+/// Legal positions with very many legal moves (several queens on an open board): the
+/// number of root moves is an input the engine could (wrongly) key decisions on.
+pub fn many_move_positions() -> Vec<Pos> {
+    [
+        "R6R/3Q4/1Q4Q1/4Q3/2Q4Q/Q4Q2/pp1Q4/kBNN1KB1 w - - 0 1",
+        "3Q4/1Q4Q1/4Q3/2Q4R/Q4Q2/3Q4/1Q4Rp/1K1BBNNk w - - 0 1",
+        "4k3/8/8/Q2Q2Q1/8/8/8/Q3K2Q w - - 0 1",
+        "q3k2q/8/8/8/q2q2q1/8/8/4K3 b - - 0 1",
+        // 90+ legal moves and no forced mate within three plies (the search runs all iterations)
+        "rnbqkbnr/pppppppp/8/8/8/Q1Q1Q1Q1/1Q1Q1Q1Q/4K3 w kq - 0 1",
+        "4k3/8/q1q1q1q1/1q1q1q1q/8/8/PPPPPPPP/RNBQKBNR b KQ - 0 1",
+        "rnbqkbnr/pppppppp/8/8/1Q4Q1/Q2QQ2Q/8/4K3 w kq - 0 1",
+        "4k3/pppppppp/8/8/Q1Q1Q1Q1/1Q1Q1Q1Q/8/4K3 w - - 0 1",
+    ]
+    .iter()
+    .map(|f| {
+        let p = Pos::from_fen(f).unwrap();
+        assert!(p.is_legal_position(), "not legal: {}", f);
+        p
+    })
+    .collect()
+}
+
 fn c19_positions(quick: bool) -> Vec<Pos> {
-    let mut v = adversarial_roots();
+    let mut v = many_move_positions();
+    v.extend(adversarial_roots());
     v.extend(perft_roots().into_iter().map(|x| x.1));
     let fams = [f3(), fcastle(false), fep(false), fpromo()];
     let (stride, step) = if quick { (61, 53) } else { (7, 11) };
